@@ -37,6 +37,8 @@ THEOREMS = [
     "C20.subject_broadcast_exact",
     "C20.received_in_call_order",
     "C20.flat_history_closed_form",
+    "C20.unsub_reactions_closed_form",
+    "C20.unsub_reactions_enough_fuel",
     "C20.log_is_received",
     "C20.detached_observer_silent",
     "C20.late_gets_terminal_only",
@@ -460,12 +462,16 @@ LEVEL_TEXT = ("Lean theorems over a small-step model of Subject + per-observer A
               "unsubscribed/terminated meanwhile; what an observer was handed is a subsequence of the accepted notifications in call order and no call "
               "is handed twice; detached observers stay silent forever; late subscribers get exactly the accepted terminal; after dispose emitting raises "
               "DisposedException and subscribing fails through subscribe's fail path (raised without on_error, delivered with). For flat histories "
-              "(callbacks only record) a closed form: each observer's final log = its own three-state reading of the history. Value-naturality "
+              "(callbacks only record) a closed form: each observer's final log = its own three-state reading of the history; for histories whose "
+              "callbacks unsubscribe themselves or other observers (any number, at any invocation) a second closed form: final logs, observer list and "
+              "detached set = a plain recursive function of the history that walks the members as they were at the call and applies each callback's "
+              "unsubscriptions at once (unsub_reactions_closed_form; the run never runs out of fuel: unsub_reactions_enough_fuel). Value-naturality "
               "(any renaming g commutes with whole runs: None/0/False/'' are ordinary). Tied to the real code by differential execution of generated "
               "histories (per-observer sequences, exceptions per call and per reacting callback, len(subject.observers) after each call) and an "
               "independent property-text oracle.")
 LEVEL_NOTE = ("For histories with reactions the exactness statement is per step of the delivery loop plus invariants over all reachable configurations; "
-              "the closed formula for a whole history is proved for reaction-free configurations only (flat_history_closed_form). "
+              "closed formulas for a whole history are proved for reaction-free configurations (flat_history_closed_form) and for callbacks that only "
+              "unsubscribe, every observer having on_error (unsub_reactions_closed_form); callbacks that subscribe or dispose have the per-step statements only. "
               "Error broadcasts reaching an observer without on_error handler (default_error raises into the emitter and the rest of the loop is skipped) "
               "are modelled and compared but treated as outside the property's quantifier (a raising callback) by the oracle. Re-entrant emission from "
               "callbacks and real thread interleavings are not modelled (single-threaded histories, as the property quantifies). "
